@@ -10,7 +10,9 @@
      correspondence run lists the entries in member-declaration order.
    * DataStorage: `value`; scalars carry their storage variant (`stag`), so a value of
      the wrong variant makes the typed getters fail exactly as in the code.
-   * A nested DynamicData is assumed to carry the type its member descriptor declares.
+   * A nested DynamicData is assumed to carry the type its member descriptor declares
+     (false only when colliding member ids pair a structure value with another member's
+     descriptor; KeyCorr.model_in_scope leaves those cases unpredicted).
    * bytes, positions, lengths: Z.
    Not modelled (the model answers Err 9 "unsupported"): optional members inside the
    key, MUTABLE nested key structures (parameter-list encoding), enum/union/bitmask/
